@@ -2,7 +2,7 @@
 From Coq Require Import List NArith Bool.
 From Frugal Require Import Bytes Wire Skip Values Desc Spec Encode Decode Checks Tags State Bitset Alloc DescMap Conc LegacyDefs.
 From Frugal.gen Require Import Params.
-From Frugal.proofs Require Import GenOk BytesWire EncodeSpec SizeExact SkipPut DecodeSafe DecodeRefines RoundTrip Corollaries StateProofs BitsetProofs AllocProofs DescMapProofs ConcProofs BufferContract.
+From Frugal.proofs Require Import GenParams GenTables Corollaries.
 From Frugal.props Require Import Examples.
 From Frugal.proofs Require Import TwoHop.
 Import ListNotations.
@@ -93,3 +93,8 @@ Example C11_needs_holder :
   /\ hop2 ce_holder_env 0 1 v = Some (DOk (VT [VS 0; VS 2] [], 8) [])
   /\ direct ce_holder_env 0 v = DOk (VT [VS 1; VS 2] [], 15) [].
 Proof. exact two_hop_needs_holder. Qed.
+
+(* the side conditions on the generated constants and tables that the theorems above assume hold
+   for what the translator read from the sources of this run *)
+Theorem C11_side_conditions : params_ok = true /\ tables_ok = true.
+Proof. split; [exact params_ok_holds | exact tables_ok_holds]. Qed.
